@@ -35,6 +35,10 @@ func checkC03(c *Ctx, r *Report) {
 	checkCode93Pair(c, r)
 	checkCodabarPair(c, r)
 	check1DLengthGuards(c, r)
+	checkITFLengths(c, r)
+	checkCode128Sets(c, r)
+	checkExtendedPairs(c, r)
+	checkUPCEANQuietZone(c, r)
 	// error discipline of the 1-D chains
 	runEDrop(c, r, []string{"oned"}, 7)
 	nf := c.newNilFlow()
@@ -684,4 +688,373 @@ func check1DLengthGuards(c *Ctx, r *Report) {
 	_ = typeutil.Callee
 	_ = math.MaxInt32
 	r.Check(ok, "M-1DLEN", key, c.pos(fd.Pos()), "UPC-A must be written as the EAN-13 symbol of \"0\" + contents (so that 11 / 12 digits are accepted and the check digit verified there)")
+}
+
+// ---------------------------------------------------------------------------------------------------------------
+// T-ITFLEN, S-C128SET, S-1DEXT
+// ---------------------------------------------------------------------------------------------------------------
+
+func checkITFLengths(c *Ctx, r *Report) {
+	r.Rule("T-ITFLEN", "the ITF reader accepts, by default, exactly the lengths the property names - 6, 8, 10, 12, 14 and everything longer than 14: the default table and the acceptance statements of itfReader.DecodeRow are folded for lengths 0..80", 1)
+	fd, p := c.funcDeclOf("oned", "itfReader.DecodeRow")
+	key := "oned.itfReader.DecodeRow/lengths"
+	if fd == nil {
+		r.AnchorLost("T-ITFLEN", key, "method not found")
+		return
+	}
+	r.Analysed(key)
+	// statements from `length := len(resultString)` up to the rejecting if
+	var stmts []ast.Stmt
+	var lenObj, allowedObj types.Object
+	started := false
+	for _, st := range fd.Body.List {
+		if as, ok := st.(*ast.AssignStmt); ok && len(as.Lhs) == 1 && len(as.Rhs) == 1 {
+			if call, isC := as.Rhs[0].(*ast.CallExpr); isC && isBuiltin(typeutil.Callee(p.TypesInfo, call), "len") && !started {
+				if t := p.TypesInfo.TypeOf(call.Args[0]); t != nil && t.String() == "string" {
+					lenObj = identObj(p, as.Lhs[0])
+					started = true
+					continue
+				}
+			}
+		}
+		if as, ok := st.(*ast.AssignStmt); ok && len(as.Lhs) == 2 && strings.Contains(exprString(as.Rhs[0]), "ALLOWED_LENGTHS") {
+			allowedObj = identObj(p, as.Lhs[0])
+		}
+		if started {
+			stmts = append(stmts, st)
+			if ifs, ok := st.(*ast.IfStmt); ok && blockReturnsError(p, ifs.Body.List, nil) {
+				break
+			}
+		}
+	}
+	table, _ := intTable(c, "oned", "itfReader_DEFAULT_ALLOWED_LENGTHS")
+	if lenObj == nil || allowedObj == nil || table == nil || len(stmts) == 0 {
+		r.Undecided("T-ITFLEN", key, c.pos(fd.Pos()), "length acceptance statements / default table not found")
+		return
+	}
+	tv := &Val{K: VList}
+	for _, x := range table {
+		tv.L = append(tv.L, vint(x))
+	}
+	bad := ""
+	for n := int64(0); n <= 80 && bad == ""; n++ {
+		env := map[types.Object]*Val{lenObj: vint(n), allowedObj: tv}
+		rr := &rpf{c: c, p: p, env: env, callHook: errCtorHook}
+		rejected := false
+		func() {
+			defer func() {
+				if y := recover(); y != nil {
+					if re, ok := y.(*rpfErr); ok {
+						bad = "?" + re.Error()
+						return
+					}
+					panic(y)
+				}
+			}()
+			for _, st := range stmts {
+				if ret := rr.stmtC(st); ret != nil {
+					rejected = true
+					return
+				}
+			}
+		}()
+		if bad != "" {
+			break
+		}
+		want := n > 14 || n == 6 || n == 8 || n == 10 || n == 12 || n == 14
+		if rejected == want {
+			bad = fmt.Sprintf("a decoded ITF string of length %d is %s by default; the accepted lengths are 6, 8, 10, 12, 14 and anything longer (table %v)", n, map[bool]string{true: "rejected", false: "accepted"}[rejected], table)
+		}
+	}
+	reportFold(r, c, "T-ITFLEN", key, fd.Pos(), bad)
+}
+
+func checkCode128Sets(c *Ctx, r *Report) {
+	r.Rule("S-C128SET", "code128ChooseCode never selects a code set in which the character at the cursor has no symbol: set A only for characters 0..95 and FNC1-4, set B only for 32..127 and FNC1-4, set C only for a digit pair or FNC1 - the function is folded (bounded unrolling) for every previous set and every first character 0..127 / FNC1-4 followed by representative continuations; the writer computes the symbol as char-32 (A: +96 below 32) and digit pair, so a character outside its set is drawn as another character", 1)
+	fd, p := c.funcDeclOf("oned", "code128ChooseCode")
+	key := "oned.code128ChooseCode"
+	if fd == nil {
+		r.AnchorLost("S-C128SET", key, "function not found")
+		return
+	}
+	r.Analysed(key)
+	get := func(n string) int64 {
+		v, _ := constValIn(c, "oned", n)
+		return v
+	}
+	A, B, C := get("code128CODE_CODE_A"), get("code128CODE_CODE_B"), get("code128CODE_CODE_C")
+	fnc1, fnc4 := get("code128ESCAPE_FNC_1"), get("code128ESCAPE_FNC_4")
+	if A == 0 || B == 0 || C == 0 || fnc1 == 0 {
+		r.Undecided("S-C128SET", key, c.pos(fd.Pos()), "code set constants not found")
+		return
+	}
+	firsts := []int64{}
+	for ch := int64(0); ch < 128; ch++ {
+		firsts = append(firsts, ch)
+	}
+	for f := fnc1; f <= fnc4; f++ {
+		firsts = append(firsts, f)
+	}
+	tails := [][]int64{{}, {'1'}, {'1', '2'}, {'1', '2', '3'}, {'1', '2', '3', '4'}, {'a'}, {'\t'}, {fnc1, '1', '2'}, {'1', fnc1, '2', '3'}, {'1', '2', '3', '4', '5'}, {'1', '2', '3', '4', '5', '6'}}
+	hooks := &rpf{unroll: 128}
+	bad := ""
+	n := 0
+	for _, old := range []int64{0, A, B, C} {
+		for _, ch := range firsts {
+			for _, tail := range tails {
+				if bad != "" {
+					continue
+				}
+				n++
+				val := &Val{K: VList, L: []*Val{vint(ch)}}
+				for _, t := range tail {
+					val.L = append(val.L, vint(t))
+				}
+				res, err := c.rpfCall(fd, p, []*Val{val, vint(0), vint(old)}, hooks)
+				if err != nil {
+					bad = "?" + err.Error()
+					continue
+				}
+				if len(res) != 1 || res[0].K != VInt {
+					bad = "?unexpected result"
+					continue
+				}
+				isFNC := ch >= fnc1 && ch <= fnc4
+				isDigit := func(x int64) bool { return x >= '0' && x <= '9' }
+				desc := fmt.Sprintf("previous set %d, text %q", old, runesOf(append([]int64{ch}, tail...)))
+				switch res[0].I {
+				case A:
+					if !(ch <= 95 || isFNC) {
+						bad = fmt.Sprintf("%s: set A is chosen, but %q (%d) has no symbol in set A (0..95): it would be drawn as the set-A character %q", desc, rune(ch), ch, rune(ch-96))
+					}
+				case B:
+					if !((ch >= 32 && ch <= 127) || isFNC) {
+						bad = fmt.Sprintf("%s: set B is chosen, but character %d has no symbol in set B (32..127)", desc, ch)
+					}
+				case C:
+					if !(ch == fnc1 || (isDigit(ch) && len(tail) > 0 && isDigit(tail[0]))) {
+						bad = fmt.Sprintf("%s: set C is chosen, but the cursor is not at a digit pair or FNC1", desc)
+					}
+				default:
+					bad = fmt.Sprintf("%s: returns %d, which is not a code set", desc, res[0].I)
+				}
+			}
+		}
+	}
+	r.Extra("code128_choose_folds", n)
+	reportFold(r, c, "S-C128SET", key, fd.Pos(), bad)
+}
+
+func checkExtendedPairs(c *Ctx, r *Report) {
+	r.Rule("S-1DEXT", "full-ASCII escaping is an inverse pair: for every character 0..127, alone and after each of the escape characters, code39TryToConvertToExtendedMode followed by code39DecodeExtended, and code93ConvertToExtended followed by code93DecodeExtended, return the original text (functions folded with bounded unrolling); the Code 39 writer converts the whole contents, not a part of it, once one character needs escaping", 3)
+	type pair struct {
+		enc, dec, key string
+		specials      string
+	}
+	hooks := &rpf{unroll: 256, callHook: errCtorHook}
+	for _, t := range []pair{
+		{"code39TryToConvertToExtendedMode", "code39DecodeExtended", "oned Code 39 extended mode", "$%/+"},
+		{"code93ConvertToExtended", "code93DecodeExtended", "oned Code 93 extended mode", "$%/+abcd"},
+	} {
+		efd, ep := c.funcDeclOf("oned", t.enc)
+		dfd, dp := c.funcDeclOf("oned", t.dec)
+		if efd == nil || dfd == nil {
+			r.AnchorLost("S-1DEXT", t.key, t.enc+" / "+t.dec+" not found")
+			continue
+		}
+		r.Analysed(t.key)
+		bad := ""
+		var texts []string
+		for ch := 0; ch < 128; ch++ {
+			texts = append(texts, string([]byte{byte(ch)}))
+		}
+		for _, sp := range t.specials {
+			for _, ch := range []byte{'z', '@', 1, 'A', '$', '%', '/', '+', ':', 127} {
+				texts = append(texts, string([]byte{'A', byte(sp), 'B', ch}))
+			}
+		}
+		for _, text := range texts {
+			if bad != "" {
+				break
+			}
+			er, err := c.rpfCall(efd, ep, []*Val{vstr(text)}, hooks)
+			if err != nil {
+				bad = "?encoder: " + err.Error()
+				break
+			}
+			if len(er) != 2 || er[0].K != VStr || er[1].K != VNil {
+				bad = fmt.Sprintf("%s(%q) fails", t.enc, text)
+				break
+			}
+			arg := listOfBytes(er[0].S)
+			if t.dec == "code93DecodeExtended" || t.dec == "code39DecodeExtended" {
+				// the readers hand over a byte slice
+			}
+			dr, err := c.rpfCall(dfd, dp, []*Val{arg}, hooks)
+			if err != nil {
+				bad = "?decoder: " + err.Error()
+				break
+			}
+			if len(dr) != 2 || dr[1].K != VNil || dr[0].K != VStr || dr[0].S != text {
+				bad = fmt.Sprintf("%q is escaped as %q and unescaped as %s", text, er[0].S, valString(dr[0]))
+			}
+		}
+		reportFold(r, c, "S-1DEXT", t.key, efd.Pos(), bad)
+	}
+	// call site: the whole contents are converted
+	fd, p := c.funcDeclOf("oned", "code39Encoder.encodeWithHints")
+	key := "oned.code39Encoder.encodeWithHints/whole contents"
+	if fd == nil {
+		r.AnchorLost("S-1DEXT", key, "method not found")
+		return
+	}
+	r.Analysed(key)
+	calls := findCalls(p, fd.Body, func(o types.Object) bool { return isFuncNamed(o, "oned", "code39TryToConvertToExtendedMode") })
+	ok := false
+	contents := paramObjs(p, fd)[0]
+	if len(calls) == 1 && identObj(p, calls[0].Args[0]) == contents {
+		if as, isA := enclosingStmt(fd.Body, calls[0]).(*ast.AssignStmt); isA && len(as.Lhs) == 2 && identObj(p, as.Lhs[0]) == contents {
+			ok = true
+		}
+	}
+	r.Check(ok, "S-1DEXT", key, c.pos(fd.Pos()), "once a character needs escaping the writer must replace the whole contents by code39TryToConvertToExtendedMode(contents): an unescaped $ % / + before the first escaped character would be read as the start of an escape")
+}
+
+// ---------------------------------------------------------------------------------------------------------------
+// R-QUIET: the quiet zone a UPC/EAN writer leaves by default against what its reader insists on
+// ---------------------------------------------------------------------------------------------------------------
+
+func checkUPCEANQuietZone(c *Ctx, r *Report) {
+	r.Rule("R-QUIET", "for EAN-13, EAN-8 and UPC-E the default rendering (requested width 0: one pixel per module, the default margin split as margin/2 left and the rest right - rendering terms decided under C14) leaves, after the end guard, more white modules than the end guard is wide, which is what upceanReader.decodeRowWithStartRange demands (its quiet-zone test is folded on the writer's geometry); the left side keeps at least the start guard's width", 3)
+	// default margin of the UPC/EAN writers
+	margin := int64(-1)
+	if fd, p := c.funcDeclOf("oned", "NewUPCEANWriter"); fd != nil {
+		ast.Inspect(fd.Body, func(n ast.Node) bool {
+			if as, ok := n.(*ast.AssignStmt); ok && len(as.Lhs) == 1 {
+				if sel, isS := as.Lhs[0].(*ast.SelectorExpr); isS && sel.Sel.Name == "defaultMargin" {
+					if v, isK := constInt(p, as.Rhs[0]); isK {
+						margin = v
+					}
+				}
+			}
+			return true
+		})
+	}
+	rfd, rp := c.funcDeclOf("oned", "upceanReader.decodeRowWithStartRange")
+	if margin < 0 || rfd == nil {
+		r.AnchorLost("R-QUIET", "oned UPC/EAN quiet zone", "NewUPCEANWriter margin / decodeRowWithStartRange not found")
+		return
+	}
+	// the reader's quiet-zone statements: from `end := endRange[1]` to the IsRange test
+	var stmts []ast.Stmt
+	var endRangeObj types.Object
+	for _, st := range rfd.Body.List {
+		if as, ok := st.(*ast.AssignStmt); ok && as.Tok == token.DEFINE && len(as.Lhs) == 1 && len(as.Rhs) == 1 {
+			if ix, isIx := as.Rhs[0].(*ast.IndexExpr); isIx && len(stmts) == 0 {
+				if k, isK := constInt(rp, ix.Index); isK && k == 1 && strings.Contains(exprString(ix.X), "endRange") {
+					endRangeObj = identObj(rp, ix.X)
+					stmts = append(stmts, st)
+					continue
+				}
+			}
+		}
+		if len(stmts) > 0 {
+			stmts = append(stmts, st)
+			if ifs, ok := st.(*ast.IfStmt); ok && blockReturnsError(rp, ifs.Body.List, nil) && strings.Contains(exprString(ifs.Cond), "rowIsRange") {
+				break
+			}
+		}
+	}
+	if endRangeObj == nil || len(stmts) < 3 {
+		r.Undecided("R-QUIET", "oned UPC/EAN quiet zone", c.pos(rfd.Pos()), "the reader's quiet-zone test was not recognised")
+		return
+	}
+	for _, t := range []struct {
+		name, ctor, widthConst, endPattern string
+	}{
+		{"EAN-13", "NewEAN13Writer", "ean13Writer_CODE_WIDTH", "UPCEANReader_START_END_PATTERN"},
+		{"EAN-8", "NewEAN8Writer", "ean8Writer_CODE_WIDTH", "UPCEANReader_START_END_PATTERN"},
+		{"UPC-E", "NewUPCEWriter", "upcEWriter_CODE_WIDTH", "upce_MIDDLE_END_PATTERN"},
+	} {
+		key := "oned " + t.name + " default quiet zone"
+		r.Analysed(key)
+		m := margin
+		// a constructor that sets its own margin
+		if fd, p := c.funcDeclOf("oned", t.ctor); fd != nil {
+			ast.Inspect(fd.Body, func(n ast.Node) bool {
+				if as, ok := n.(*ast.AssignStmt); ok && len(as.Lhs) == 1 {
+					if sel, isS := as.Lhs[0].(*ast.SelectorExpr); isS && sel.Sel.Name == "defaultMargin" {
+						if v, isK := constInt(p, as.Rhs[0]); isK {
+							m = v
+						}
+					}
+				}
+				return true
+			})
+		} else {
+			r.AnchorLost("R-QUIET", key, t.ctor+" not found")
+			continue
+		}
+		codeW, okW := constValIn(c, "oned", t.widthConst)
+		pat, _ := intTable(c, "oned", t.endPattern)
+		if !okW || pat == nil {
+			r.AnchorLost("R-QUIET", key, "code width / end pattern not found")
+			continue
+		}
+		endW := int64(0)
+		for _, x := range pat {
+			endW += x
+		}
+		left := m / 2
+		right := m - left
+		size := codeW + m
+		end := left + codeW // first pixel after the end guard
+		// fold the reader's test
+		rejected := false
+		bad := ""
+		env := map[types.Object]*Val{endRangeObj: {K: VList, L: []*Val{vint(end - endW), vint(end)}}}
+		rr := &rpf{c: c, p: rp, env: env, callHook: func(x *rpf, call *ast.CallExpr, callee types.Object) (*Val, bool) {
+			if isMethodNamed(callee, "", "BitArray", "GetSize") {
+				return vint(size), true
+			}
+			return errCtorHook(x, call, callee)
+		}, multiHook: func(call *ast.CallExpr, callee types.Object) ([]*Val, bool) {
+			if isMethodNamed(callee, "", "BitArray", "IsRange") {
+				a, b := rpfCurrent.expr(call.Args[0]), rpfCurrent.expr(call.Args[1])
+				// everything after the end guard is white in a rendering
+				if a.K == VInt && b.K == VInt && a.I >= end && b.I <= size && a.I <= b.I {
+					return []*Val{vbool(true), {K: VNil}}, true
+				}
+				return []*Val{vbool(false), vstr("error")}, true
+			}
+			return nil, false
+		}}
+		func() {
+			defer func() {
+				if y := recover(); y != nil {
+					if re, ok := y.(*rpfErr); ok {
+						bad = "?" + re.Error()
+						return
+					}
+					panic(y)
+				}
+			}()
+			for _, st := range stmts {
+				if ret := rr.stmtC(st); ret != nil {
+					rejected = true
+					return
+				}
+			}
+		}()
+		switch {
+		case bad != "":
+			r.Undecided("R-QUIET", key, c.pos(rfd.Pos()), bad[1:])
+		case rejected:
+			r.Fail("R-QUIET", key, c.pos(rfd.Pos()), "violation", fmt.Sprintf("the %s writer's default rendering is %d modules wide with %d white modules after the %d-module end guard; the reader rejects a row unless more than %d white modules follow the end guard, so the library cannot read its own default %s image", t.name, size, right, endW, endW, t.name))
+		case left < 3:
+			r.Fail("R-QUIET", key, c.pos(rfd.Pos()), "violation", fmt.Sprintf("only %d white modules before the start guard", left))
+		default:
+			r.Pass("R-QUIET", key, c.pos(rfd.Pos()), fmt.Sprintf("margin %d: %d left, %d right; end guard %d", m, left, right, endW))
+		}
+	}
 }
